@@ -294,7 +294,10 @@ def main(argv):
         if f.get("argv"):
             key = (f["cfg"], "cmdline")          # one report per kind of command-line failure, smallest first
         viol_by_entry.setdefault(key, []).append(f)
-    for key, fs in sorted(viol_by_entry.items())[:8]:
+    def simplest(item):
+        fs = item[1]
+        return min((len(f.get("argv") or []), len(f.get("script_file") or ""), len(f["pre"] or []), len(f["script"] or "")) for f in fs)
+    for key, fs in sorted(viol_by_entry.items(), key=lambda it: (simplest(it), str(it[0])))[:8]:
         fs.sort(key=lambda f: (len(f.get("argv") or []), len(f.get("script_file") or ""), len(f["pre"] or []), f["form"] != "direct", len(f["script"] or "")))
         f = fs[0]
         c.violation({"kind": "a script in a sandboxed interpreter reached the outside world" + (" (cmd/zygo run with a sandbox flag: zygo %s)" % " ".join(f["argv"]) if f.get("argv") else ""),
